@@ -454,6 +454,28 @@ def _par_chunk(params, lo, hi):
     return r
 
 
+P6 = [(0, 1, 4), (0, 2, 1), (2, 1, 2), (1, 3, 1), (2, 3, 5), (3, 4, 3), (1, 4, 6), (4, 5, 1), (3, 5, 5), (2, 4, 9), (0, 5, 12), (5, 0, 1)]
+
+
+def _p6_chunk(params, lo, hi):
+    """6 nodes, every subset of the 12 declared weighted arcs P6 (labels that are improved two and three times, stale
+    queue entries, a long cheap path against short expensive ones) x arc order x weight mode (as listed / weight mod 3:
+    zeros and ties). index = (subset*2 + order)*2 + mode"""
+    r = new_result()
+    for idx in range(lo, hi):
+        mode = idx % 2
+        order = idx // 2 % 2
+        code = idx // 4
+        arcs = [(u, v, x % 3 if mode else x) for b, (u, v, x) in enumerate(P6) if code >> b & 1]
+        if order:
+            arcs.reverse()
+        run_nonneg(r, 6, arcs, full=False)
+        if len(r["violations"]) >= 40 or r["counters"]["hangs"] >= 2 or too_many_hangs():
+            r["capped"] = True
+            break
+    return r
+
+
 def _n4_chunk(params, lo, hi):
     """4 nodes, exactly k arcs (no self loops), weights over alpha: index = comb_index * |alpha|^k + weights"""
     k, alpha, negative = params
@@ -605,6 +627,7 @@ def _terrain_chunk(params, lo, hi):
 
 def jobs(tier, seed):
     js = []
+    js.append(Job("n6_subsets_of_declared_arcs", 2 ** len(P6) * 4, _p6_chunk, None, describe=f"6 nodes, every subset of {P6}, both arc orders, weights as listed and mod 3; every solver, every (s,t)"))
     if tier == "thorough":
         js.append(Job("n3_nonneg_absent012", 4**9, _n3_chunk, ((None, 0, 1, 2), 8), describe="all digraphs on 3 nodes incl. self loops over {absent,0,1,2}; every 8th graph gets the full cross (labels, predicates, max_iter, max_cost, 3 heuristics), all get every (s,t) for every solver"))
     else:
